@@ -73,8 +73,41 @@ def star_scenarios(draw):
     return {"scenario": "star_imports", "files": files, "entry": "main.py", "names": sorted(defined)}
 
 
+@st.composite
+def hierarchy_scenarios(draw):
+    """a method overridden at 2-4 levels of a class chain spread over modules, renamed with in_hierarchy=True from any level:
+    every override and every call must follow (dynamic dispatch makes a missed override observable)"""
+    depth = draw(st.integers(2, 4))
+    names = ["Base", "Mid", "Leaf", "Tip"][:depth]
+    files = {}
+    for k, cn in enumerate(names):
+        imp = "" if k == 0 else "from lv%d import %s\n" % (k - 1, names[k - 1])
+        base = "" if k == 0 else "(%s)" % names[k - 1]
+        overrides = k == 0 or draw(st.integers(0, 3)) > 0
+        body = "    def describe(self):\n        return '<%s>'\n" % cn.lower() if overrides else "    pass\n"
+        extra = "    def show(self):\n        return self.describe()\n" if k == 0 else ""
+        files["lv%d.py" % k] = imp + "class %s%s:\n%s%s" % (cn, base, body, extra)
+    files["main.py"] = "".join("from lv%d import %s\n" % (k, cn) for k, cn in enumerate(names)) + "print(%s)\n" % ", ".join("%s().show(), %s().describe()" % (cn, cn) for cn in names)
+    return {"scenario": "hierarchy", "files": files, "entry": "main.py", "names": ["describe"], "in_hierarchy": True}
+
+
+@st.composite
+def kwargs_scenarios(draw):
+    """keywords swallowed by **kwargs are dictionary keys, not references to a visible variable of the same name"""
+    var = draw(st.sampled_from(["timeout", "retries"]))
+    files = {
+        "cfg.py": "def make(**options):\n    return sorted(options.items())\n",
+        "main.py": "from cfg import make\ntimeout = 30\nretries = 3\nprint(make(%s=%s * 2, other=retries))\nprint(timeout + retries)\n" % (var, var),
+    }
+    return {"scenario": "kwargs_keyword", "files": files, "entry": "main.py", "names": ["timeout", "retries"]}
+
+
 def strategy(tier):
-    return st.one_of(projgen.projects(), projgen.projects(), projgen.projects(), projgen.projects(), projgen.projects(), projgen.projects(), projgen.projects(), star_scenarios())
+    return st.one_of(
+        projgen.projects(), projgen.projects(), projgen.projects(), projgen.projects(), projgen.projects(), projgen.projects(), projgen.projects(),
+        projgen.projects(), projgen.projects(), projgen.projects(), projgen.projects(), projgen.projects(), projgen.projects(), projgen.projects(),
+        star_scenarios(), hierarchy_scenarios(), kwargs_scenarios(),
+    )
 
 
 def describe(case):
@@ -161,7 +194,7 @@ def _evaluate_scenario(case, env):
                     out.evals += 1
                     out.labels["scenario:" + case["scenario"]] += 1
                     try:
-                        changes = Rename(project, project.get_file(path), m.start()).get_changes(projgen.FRESH)
+                        changes = Rename(project, project.get_file(path), m.start()).get_changes(projgen.FRESH, **({"in_hierarchy": True} if case.get("in_hierarchy") else {}))
                     except rex.RopeError:
                         out.refused += 1
                         continue
